@@ -230,6 +230,7 @@ WORDS = ["x", "yz", "lorem", "ipsum", "é", "漢字", "&", "<", ">", '"', "'", "
 # attribute values share strings with the text pool (the same string in both contexts must be escaped per context)
 ATTR_VALUES = ["", "1", "v w", "a&b", '"q"', "<", "é", '"', "'", "]]>", ">", "x", "&"]
 WS = [" ", "  ", "\n", "\t", " \n ", "\n\t\t", "\r"]
+SEAMS = [("]]", ">"), ("]", "]>"), ("x ]]", "> y"), ("&", "amp;"), ("&#", "60;"), ("<", "!--"), ("<", "/a>"), ("-", "->")]
 
 
 def gen_text(rng, ws_prob=0.5, words=WORDS, ws=WS, empty_ok=False):
@@ -287,6 +288,13 @@ def gen_tree(rng, max_depth=4, max_kids=5, nss=NSS, p_text=0.45, p_comment=0.08,
             r = rng.random()
             if r < p_text:
                 if kids and kids[-1][0] == "x" and not adjacent_text:
+                    continue
+                if kids and kids[-1][0] == "x" and rng.random() < 0.25:
+                    # a sequence that is only markup-significant as a whole, split over the seam of two adjacent text nodes
+                    # (seeded C02-8: `]]>` escaped per text node)
+                    left, right = rng.choice(SEAMS)
+                    kids[-1] = ["x", kids[-1][1] + left]
+                    kids.append(["x", right + text(rng)])
                     continue
                 kids.append(["x", text(rng)])
             elif r < p_text + p_comment:
